@@ -141,6 +141,7 @@ impl FuzzSub {
             .arg("-max_len=4096")
             .arg("-rss_limit_mb=4096")
             .arg("-detect_leaks=0")
+            .arg(format!("-dict={}", fuzz_dir.join("html_css.dict").display()))
             .arg(format!("-fork={}", ctx.threads.max(1)))
             .arg(format!("-artifact_prefix={}/", arts.display()))
             .output()
